@@ -184,6 +184,9 @@ func (s *LineFilterIpReader) hitIpSubnet(n *influxql.BinaryExpr) bool {
 	if currTokenizer.CurrentHash() != 0 {
 		hashValues = append(hashValues, currTokenizer.CurrentHash())
 		s.hashes[subnetVal] = hashValues
+	} else {
+		// no stored prefix length covers the subnet (prefix shorter than 8 bits): the filter cannot exclude anything
+		return true
 	}
 
 	blockOffset := s.currentBlockId * logstore.GetConstant(s.version).FilterDataDiskSize
